@@ -76,14 +76,20 @@ class ProtocolHandler:
         try:
             return await handler(message, session_id)
         except Exception as e:
-            logging.error(f"Handler error for {method}: {e}")
+            # The handler's exception may not even be printable: dispatch must
+            # not fail while reporting it
+            try:
+                detail = str(e)
+            except Exception:
+                detail = type(e).__name__
+            logging.error(f"Handler error for {method}: {detail}")
             # Get ID if available (not on notifications)
             msg_id = getattr(message, "id", None)
             if msg_id is None:
                 # Notifications never get a response, not even an error
                 return None, None
             return self.create_error_response(
-                msg_id, -32603, f"Internal error: {str(e)}"
+                msg_id, -32603, f"Internal error: {detail}"
             ), None
 
     async def _handle_initialize(
